@@ -70,6 +70,7 @@ type Exec struct {
 	modKinds map[int]*ModInfo
 	atoms    map[string]bool
 	inInit   bool
+	xmlElementTexts []string // element texts for the modelled xml.Decoder.DecodeElement (key stub)
 
 	// results of this path
 	findings     []*Finding
